@@ -10,7 +10,8 @@
 From Coq Require Import List Arith NArith Bool Permutation Lia.
 Require Import Base Tables_rules.
 Require Import LintGroupCfg LintGroupCfgProofs LintGroupCfgJson C11History.
-Require Import C11Curated C11CuratedProofs C11Cache C11CacheProofs.
+Require Import C11Curated C11CuratedProofs C11Cache C11CacheProofs C11ChunkKey C11ChunkKeyProofs.
+Require Cache CacheProofs.
 Require Import C11JsonValue Tables_c11routes C11JsonValueProofs.
 Import ListNotations.
 
@@ -802,4 +803,145 @@ Proof.
   repeat split; try (vm_compute; reflexivity).
   - vm_compute. intuition discriminate.
   - vm_compute. discriminate.
+Qed.
+
+(* ================================================================================================ *)
+(* phase 5: the chunk component of the cache key made concrete (Model/C11ChunkKey.v over C05's       *)
+(* Model/Cache.v): characters of the chunk's hull + hash of its tokens relative to the chunk start  *)
+(* ================================================================================================ *)
+(* A document is C05's `Cache.doc kind` (chunks of iter_chunks() with hull start, characters, tokens); a pattern rule
+   is a function (chunk characters, relative tokens) -> chunk-relative lints, reported pushed by the chunk start
+   (C05's pattern_rel, per rule).  Then BOTH dispatch hypotheses of C11_toggle_warm_cache are theorems: rel_fun_on
+   follows from C05's token-hash hypothesis (`tok_hash_ok` = CacheProofs.tok_hash_inj_on over the chunks of the
+   documents the history lints), rel_ok holds by construction.  What remains: the two hash hypotheses of C05. *)
+Theorem C11_toggle_warm_cache_tokens : forall (body kind srule HK : Type) (tok_hash : list (Cache.tok kind) -> N)
+    (run_struct : srule -> kdoc kind -> list (glint body)) (hk_eqb : HK -> HK -> bool) (cfg_hash : config -> HK)
+    (g : group srule (kprule body kind)) (P : config -> Prop)
+    (h : list (hop (kdoc kind) (text * N) HK)) (cfg0 : config) (i j : nat) (ci cj : config) (d : kdoc kind) (r : key),
+  (forall a b : HK, hk_eqb a b = true -> a = b) ->
+  hash_inj_on HK cfg_hash P ->
+  CacheProofs.tok_hash_inj_on unit kind tok_hash (flat_map (Cache.doc_triples unit kind tt) (hist_docs h)) ->
+  (forall c', In (HSetCfg c') h -> P c') -> P cfg0 ->
+  nth_error (trace (kdoc kind) (text * N) HK h cfg0) i = Some (ci, d) ->
+  nth_error (trace (kdoc kind) (text * N) HK h cfg0) j = Some (cj, d) ->
+  (forall k : key, k <> r -> is_rule_enabled ci k = is_rule_enabled cj k) ->
+  let out := run_hist body (kdoc kind) (kchunk kind) srule (kprule body kind) k_chunks k_start run_struct k_run_pat
+               (text * N) HK kk_eqb hk_eqb (k_key tok_hash) cfg_hash g h cfg0 [] in
+  nth_error out i = Some (Ok (map snd (lint_tagged k_chunks k_start run_struct k_run_pat (g_with_cfg g ci) d))) /\
+  nth_error out j = Some (Ok (map snd (lint_tagged k_chunks k_start run_struct k_run_pat (g_with_cfg g cj) d))) /\
+  filter (not_tag body r) (lint_tagged k_chunks k_start run_struct k_run_pat (g_with_cfg g ci) d) =
+  filter (not_tag body r) (lint_tagged k_chunks k_start run_struct k_run_pat (g_with_cfg g cj) d).
+Proof. exact toggle_warm_tokens. Qed.
+Check C11_toggle_warm_cache_tokens : forall (body kind srule HK : Type) (tok_hash : list (Cache.tok kind) -> N)
+    (run_struct : srule -> kdoc kind -> list (glint body)) (hk_eqb : HK -> HK -> bool) (cfg_hash : config -> HK)
+    (g : group srule (kprule body kind)) (P : config -> Prop)
+    (h : list (hop (kdoc kind) (text * N) HK)) (cfg0 : config) (i j : nat) (ci cj : config) (d : kdoc kind) (r : key),
+  (forall a b : HK, hk_eqb a b = true -> a = b) ->
+  hash_inj_on HK cfg_hash P ->
+  CacheProofs.tok_hash_inj_on unit kind tok_hash (flat_map (Cache.doc_triples unit kind tt) (hist_docs h)) ->
+  (forall c', In (HSetCfg c') h -> P c') -> P cfg0 ->
+  nth_error (trace (kdoc kind) (text * N) HK h cfg0) i = Some (ci, d) ->
+  nth_error (trace (kdoc kind) (text * N) HK h cfg0) j = Some (cj, d) ->
+  (forall k : key, k <> r -> is_rule_enabled ci k = is_rule_enabled cj k) ->
+  let out := run_hist body (kdoc kind) (kchunk kind) srule (kprule body kind) k_chunks k_start run_struct k_run_pat
+               (text * N) HK kk_eqb hk_eqb (k_key tok_hash) cfg_hash g h cfg0 [] in
+  nth_error out i = Some (Ok (map snd (lint_tagged k_chunks k_start run_struct k_run_pat (g_with_cfg g ci) d))) /\
+  nth_error out j = Some (Ok (map snd (lint_tagged k_chunks k_start run_struct k_run_pat (g_with_cfg g cj) d))) /\
+  filter (not_tag body r) (lint_tagged k_chunks k_start run_struct k_run_pat (g_with_cfg g ci) d) =
+  filter (not_tag body r) (lint_tagged k_chunks k_start run_struct k_run_pat (g_with_cfg g cj) d).
+Print Assumptions C11_toggle_warm_cache_tokens.
+
+(* ... with the write-call hasher (hash_calls) the token hash is the ONLY hypothesis left: the instance stream Q runs *)
+Theorem C11_toggle_warm_cache_tokens_calls : forall (body kind srule : Type) (tok_hash : list (Cache.tok kind) -> N)
+    (run_struct : srule -> kdoc kind -> list (glint body)) (g : group srule (kprule body kind))
+    (h : list (hop (kdoc kind) (text * N) (list (list N)))) (cfg0 : config) (i j : nat) (ci cj : config)
+    (d : kdoc kind) (r : key),
+  CacheProofs.tok_hash_inj_on unit kind tok_hash (flat_map (Cache.doc_triples unit kind tt) (hist_docs h)) ->
+  nth_error (trace (kdoc kind) (text * N) (list (list N)) h cfg0) i = Some (ci, d) ->
+  nth_error (trace (kdoc kind) (text * N) (list (list N)) h cfg0) j = Some (cj, d) ->
+  (forall k : key, k <> r -> is_rule_enabled ci k = is_rule_enabled cj k) ->
+  let out := run_hist body (kdoc kind) (kchunk kind) srule (kprule body kind) k_chunks k_start run_struct k_run_pat
+               (text * N) (list (list N)) kk_eqb hk_eqb_calls (k_key tok_hash) hash_calls g h cfg0 [] in
+  nth_error out i = Some (Ok (map snd (lint_tagged k_chunks k_start run_struct k_run_pat (g_with_cfg g ci) d))) /\
+  nth_error out j = Some (Ok (map snd (lint_tagged k_chunks k_start run_struct k_run_pat (g_with_cfg g cj) d))) /\
+  filter (not_tag body r) (lint_tagged k_chunks k_start run_struct k_run_pat (g_with_cfg g ci) d) =
+  filter (not_tag body r) (lint_tagged k_chunks k_start run_struct k_run_pat (g_with_cfg g cj) d).
+Proof. exact toggle_warm_tokens_calls. Qed.
+Check C11_toggle_warm_cache_tokens_calls : forall (body kind srule : Type) (tok_hash : list (Cache.tok kind) -> N)
+    (run_struct : srule -> kdoc kind -> list (glint body)) (g : group srule (kprule body kind))
+    (h : list (hop (kdoc kind) (text * N) (list (list N)))) (cfg0 : config) (i j : nat) (ci cj : config)
+    (d : kdoc kind) (r : key),
+  CacheProofs.tok_hash_inj_on unit kind tok_hash (flat_map (Cache.doc_triples unit kind tt) (hist_docs h)) ->
+  nth_error (trace (kdoc kind) (text * N) (list (list N)) h cfg0) i = Some (ci, d) ->
+  nth_error (trace (kdoc kind) (text * N) (list (list N)) h cfg0) j = Some (cj, d) ->
+  (forall k : key, k <> r -> is_rule_enabled ci k = is_rule_enabled cj k) ->
+  let out := run_hist body (kdoc kind) (kchunk kind) srule (kprule body kind) k_chunks k_start run_struct k_run_pat
+               (text * N) (list (list N)) kk_eqb hk_eqb_calls (k_key tok_hash) hash_calls g h cfg0 [] in
+  nth_error out i = Some (Ok (map snd (lint_tagged k_chunks k_start run_struct k_run_pat (g_with_cfg g ci) d))) /\
+  nth_error out j = Some (Ok (map snd (lint_tagged k_chunks k_start run_struct k_run_pat (g_with_cfg g cj) d))) /\
+  filter (not_tag body r) (lint_tagged k_chunks k_start run_struct k_run_pat (g_with_cfg g ci) d) =
+  filter (not_tag body r) (lint_tagged k_chunks k_start run_struct k_run_pat (g_with_cfg g cj) d).
+Print Assumptions C11_toggle_warm_cache_tokens_calls.
+
+(* the key the CODE computes (two checked usize subtractions per token feed the token hash) is the model's total key on
+   every chunk of every document LintGroup::lint can build (Cache.doc_of: hull = min/max over the token ends): the key
+   computation never panics; and in this instance no pattern lint lies before its chunk start (rel_ok) *)
+Theorem C11_chunk_key_total : forall (body kind srule : Type) (tok_hash : list (Cache.tok kind) -> N)
+    (g : group srule (kprule body kind)) (src : text) (chunks : list (list (Cache.tok kind))) (miss : list (span * text))
+    (rest : N) (d : kdoc kind),
+  Cache.doc_of src chunks miss rest = Ok d ->
+  (forall oc, In oc (k_chunks d) -> k_key_checked tok_hash oc = Ok (k_key tok_hash d oc)) /\
+  rel_ok k_chunks k_start k_run_pat g d.
+Proof. exact (fun body kind srule tok_hash g src chunks miss rest d H =>
+  conj (fun oc Hin => k_key_checked_doc_of kind tok_hash src chunks miss rest d oc H Hin) (k_rel_ok body kind srule g d)). Qed.
+Check C11_chunk_key_total : forall (body kind srule : Type) (tok_hash : list (Cache.tok kind) -> N)
+    (g : group srule (kprule body kind)) (src : text) (chunks : list (list (Cache.tok kind))) (miss : list (span * text))
+    (rest : N) (d : kdoc kind),
+  Cache.doc_of src chunks miss rest = Ok d ->
+  (forall oc, In oc (k_chunks d) -> k_key_checked tok_hash oc = Ok (k_key tok_hash d oc)) /\
+  rel_ok k_chunks k_start k_run_pat g d.
+Print Assumptions C11_chunk_key_total.
+
+(* on data: "ab cd, ab" (chunks `ab cd,` and ` ab`) and "x, ab" (chunks `x,`, an EMPTY token slice, ` ab`): the chunk
+   ` ab` = [space (0,1); word (1,3)] relative, sits at offset 6 in document 0 and at offset 2 in document 1.  Kinds: 1 word
+   (odd), 2 space, 4 comma.  Struct rule A, pattern rule B = word_rule "ab".  History: lint d0; A off; lint d1 (its ` ab` is a
+   HIT from d0's entry, re-based to 3..5); A on; lint d1 with everything evicted before its last chunk; lint d1 *)
+Definition exq_hash (ts : list (Cache.tok N)) : N :=
+  fold_left (fun h t => (h * 1000 + fst t * 100 + N.of_nat (sstart (snd t)) * 10 + N.of_nat (send (snd t)))%N) ts 7%N.
+Definition exq_tok (k : N) (a b : nat) : Cache.tok N := (k, mkspan a b).
+Definition exq_srcs : list (text * list (list (Cache.tok N))) :=
+  [([97; 98; 32; 99; 100; 44; 32; 97; 98]%N,
+    [[exq_tok 1 0 2; exq_tok 2 2 3; exq_tok 1 3 5; exq_tok 4 5 6]; [exq_tok 2 6 7; exq_tok 1 7 9]]);
+   ([120; 44; 32; 97; 98]%N,
+    [[exq_tok 1 0 1; exq_tok 4 1 2]; []; [exq_tok 2 2 3; exq_tok 1 3 5]])].
+Definition exq_docs : list (kdoc N) := match q_docs 0 exq_srcs with Ok l => l | Panic _ => [] end.
+Definition exq_d0 : kdoc N := nth 0 exq_docs (Cache.mkdoc [] [] 0%N).
+Definition exq_d1 : kdoc N := nth 1 exq_docs (Cache.mkdoc [] [] 0%N).
+Definition exq_g : qgroup :=
+  q_build [QStruct (ex_key [65]) [[mkglint (mkspan 0 1) 1]; [mkglint (mkspan 0 1) 1]]; QPattern (ex_key [66]) [97; 98]%N 2].
+Definition exq_h : list (hop (kdoc N) (text * N) (list (list N))) :=
+  [HLint exq_d0 []; HSetCfg exh_off; HLint exq_d1 []; HSetCfg exh_on;
+   HLint exq_d1 [fun _ => true; fun _ => true; fun _ => false]; HLint exq_d1 []].
+Example C11_toggle_warm_tokens_nonvacuous :
+  q_docs 0 exq_srcs = Ok [exq_d0; exq_d1] /\
+  map k_start (k_chunks exq_d1) = [Some 0; None; Some 2] /\
+  k_key exq_hash exq_d0 (nth 1 (k_chunks exq_d0) None) = k_key exq_hash exq_d1 (nth 2 (k_chunks exq_d1) None) /\
+  CacheProofs.tok_hash_inj_on unit N exq_hash (flat_map (Cache.doc_triples unit N tt) (hist_docs exq_h)) /\
+  trace (kdoc N) (text * N) (list (list N)) exq_h exh_on = [(exh_on, exq_d0); (exh_off, exq_d1); (exh_on, exq_d1); (exh_on, exq_d1)] /\
+  run_hist nat (kdoc N) (kchunk N) qsrule (kprule nat N) k_chunks k_start q_run_struct k_run_pat (text * N) (list (list N))
+    kk_eqb hk_eqb_calls (k_key exq_hash) hash_calls exq_g exq_h exh_on []
+  = [Ok [mkglint (mkspan 0 1) 1; mkglint (mkspan 0 2) 2; mkglint (mkspan 7 9) 2];
+     Ok [mkglint (mkspan 3 5) 2];
+     Ok [mkglint (mkspan 0 1) 1; mkglint (mkspan 3 5) 2];
+     Ok [mkglint (mkspan 0 1) 1; mkglint (mkspan 3 5) 2]] /\
+  map (fun x => snd (fst x)) (q_run exq_hash exq_g exq_docs [SLint 0; SLint 1] exh_on [])
+  = [[([97; 98; 32; 99; 100; 44]%N, exq_hash [exq_tok 1 0 2; exq_tok 2 2 3; exq_tok 1 3 5; exq_tok 4 5 6]);
+      ([32; 97; 98]%N, exq_hash [exq_tok 2 0 1; exq_tok 1 1 3])];
+     [([120; 44]%N, exq_hash [exq_tok 1 0 1; exq_tok 4 1 2])]].
+Proof.
+  split; [vm_compute; reflexivity|]. split; [vm_compute; reflexivity|]. split; [vm_compute; reflexivity|].
+  split; [|split; [vm_compute; reflexivity|split; vm_compute; reflexivity]].
+  intros x y Hx Hy. vm_compute in Hx, Hy.
+  repeat (destruct Hx as [<-|Hx]; [|try contradiction]);
+    repeat (destruct Hy as [<-|Hy]; [|try contradiction]); vm_compute; intros E; try reflexivity; discriminate E.
 Qed.
